@@ -1413,6 +1413,129 @@ def _classify_storage_use(tu, u, payload):
     return 'und', 'too deep'
 
 
+# ============================================================================================
+#  R-C09-8: the type-name helper behind Any::toString() / the get<T>() mismatch message
+# ============================================================================================
+DEMANGLE_UNIT = 'rkcommon/utility/demangle.cpp'
+MALLOC_FNS = ('malloc', 'calloc', 'realloc', 'std::malloc', 'std::calloc', 'std::realloc', 'strdup')
+
+
+def check_demangle(ctx):
+    R = 'R-C09-8'
+    ctx.describe(R, 'Any::toString() and the message of a failed Any::get<T>() go through demangle(): the output buffer it hands to '
+                    'abi::__cxa_demangle is null or comes from malloc (the ABI function realloc()s / frees that buffer when the name does not fit)')
+    try:
+        tu = ctx.front.parse(DEMANGLE_UNIT, 'TBB')
+    except Exception as e:      # noqa
+        ctx.broken('%s: cannot parse %s: %s' % (R, DEMANGLE_UNIT, str(e)[:200]))
+        return
+    n = 0
+    for f in tu.functions.values():
+        if not tu.fn_file(f).startswith('rkcommon/') or tu.body(f) is None:
+            continue
+        for c in tu.walk(tu.body(f)):
+            if c.get('kind') != 'CallExpr' or not tu.sd(c).get('q', '').endswith('__cxa_demangle'):
+                continue
+            args = tu.call_parts(c)[2]
+            if len(args) < 2:
+                continue
+            n += 1
+            inst = '%s: %s' % (f['q'].replace('rkcommon::', ''), tu.show(c)[:70])
+            key = '%s|%s|%s|demangle-buffer' % (R, tu.fn_file(f), f['q'].replace('rkcommon::', ''))
+            a = tu.strip(args[1], casts=True)
+            verdict, why = 'und', 'buffer argument `%s` not classified' % tu.show(args[1])[:60]
+            if a is None or a.get('kind') in ('CXXNullPtrLiteralExpr', 'GNUNullExpr') or (a.get('kind') == 'IntegerLiteral' and a.get('value') == '0'):
+                verdict, why = 'ok', 'null buffer: the ABI function allocates the result with malloc'
+            elif a.get('kind') == 'DeclRefExpr':
+                d = tu.node(tu.ref_decl(a))
+                qt = (d or {}).get('type', {}).get('qualType', '')
+                if d is not None and d.get('kind') == 'VarDecl' and '[' in qt:
+                    verdict, why = 'bad', 'the array `%s` (%s)' % (d.get('name'), qt)
+                elif d is not None and d.get('kind') == 'VarDecl' and qt.rstrip().endswith('*'):
+                    srcs = [tu.kids(d)[-1]] if tu.kids(d) else []
+                    for x in tu.walk(tu.body(f)):
+                        if x.get('kind') == 'BinaryOperator' and x.get('opcode') == '=' and tu.ref_decl(tu.kids(x)[0]) == d['id']:
+                            srcs.append(tu.kids(x)[1])
+                    def from_malloc(e):
+                        e = tu.strip(e, casts=True)
+                        return e is not None and e.get('kind') == 'CallExpr' and tu.sd(e).get('q', '') in MALLOC_FNS
+                    def is_null(e):
+                        e = tu.strip(e, casts=True)
+                        return e is not None and (e.get('kind') in ('CXXNullPtrLiteralExpr', 'GNUNullExpr') or
+                                                  (e.get('kind') == 'IntegerLiteral' and e.get('value') == '0'))
+                    if srcs and all(from_malloc(e) or is_null(e) for e in srcs):
+                        verdict, why = 'ok', 'buffer `%s` comes from malloc' % d.get('name')
+            elif a.get('kind') == 'UnaryOperator' and a.get('opcode') == '&':
+                verdict, why = 'bad', 'the address `%s`' % tu.show(a)[:40]
+            elif a.get('kind') == 'CXXMemberCallExpr' and tu.sd(a).get('q', '').split('::')[-1] in ('data', 'c_str', 'get'):
+                verdict, why = 'bad', 'storage owned by another object (`%s`)' % tu.show(a)[:40]
+            elif a.get('kind') == 'CXXNewExpr':
+                verdict, why = 'bad', 'memory from operator new'
+            if verdict == 'ok':
+                ctx.ok(R, inst, why, tu.loc(c))
+            elif verdict == 'bad':
+                ctx.violation(R, inst, '%s is handed to abi::__cxa_demangle as its output buffer; that buffer must be null or malloc()ed, because the '
+                              'function realloc()s it when the demangled name does not fit: for a payload whose type name is longer than the buffer '
+                              '(nested containers, maps of strings) Any::toString() and the message of a failed get<T>() free / realloc memory '
+                              'that malloc never returned and abort instead of printing / throwing' % why, tu.loc(c), key=key)
+            else:
+                ctx.undecided(R, inst, why, tu.loc(c))
+    if n == 0:
+        # e.g. typeid names used undemangled: nothing to check
+        ctx.ok(R, DEMANGLE_UNIT, 'no call of abi::__cxa_demangle in the unit', DEMANGLE_UNIT, nontrivial=False)
+
+
+# ============================================================================================
+#  R-C09-9: an Any source of any value category is copied by the copy members
+# ============================================================================================
+def check_any_categories(ctx, tu):
+    R = 'R-C09-9'
+    ctx.describe(R, 'copy construction and assignment from an Any lvalue, const lvalue, rvalue and const rvalue resolve to the copy / move '
+                    'members of Any, never to the value templates (which would store an Any inside an Any, or recurse); and no holder is '
+                    'instantiated for the payload type Any')
+    fs = [f for f in tu.functions.values() if f['q'] == 'rkverif::any_value_categories']
+    if len(fs) != 1 or tu.body(fs[0]) is None:
+        ctx.broken('%s: driver function rkverif::any_value_categories not found' % R)
+        return
+    f = fs[0]
+    n = 0
+    for x in tu.walk(tu.body(f)):
+        callee = None
+        what = None
+        if x.get('kind') == 'CXXConstructExpr' and (tu.sd(x).get('rec') == ANY or tu.sd(x).get('q', '').startswith(ANY + '::Any')):
+            par = tu.par(x)
+            if par is None or par.get('kind') != 'VarDecl':
+                continue
+            callee, what = tu.callee_fn(x), 'Any %s(...)' % par.get('name')
+        elif x.get('kind') == 'CXXOperatorCallExpr' and tu.sd(x).get('q', '').endswith('::operator=') and tu.sd(x).get('rec') == ANY:
+            lhs = tu.strip(tu.kids(x)[1], casts=True)
+            callee, what = tu.callee_fn(x), '%s = ...' % (tu.show(lhs)[:30] if lhs else '?')
+        else:
+            continue
+        n += 1
+        sd = tu.sd(x)
+        fty = (callee or {}).get('fty', '') or sd.get('fty', '')
+        p0 = (callee['params'][0]['ct'] if callee and callee.get('params') else '')
+        is_copy_member = bool(callee) and (callee.get('ctor') in ('copy', 'move') or
+                                           (callee['q'].endswith('::operator=') and p0.replace('const ', '').replace(' ', '') in (ANY + '&', ANY + '&&')))
+        cat = what.replace('from', '').replace('Any ', '').split('(')[0].split(' =')[0].strip()
+        if is_copy_member:
+            ctx.ok(R, what, 'resolves to %s %s' % (callee['q'].replace('rkcommon::utility::', ''), callee['fty']), tu.loc(x))
+        elif callee is not None and callee.get('rec') == ANY:
+            ctx.violation(R, what, 'for a source of category %s overload resolution selects the value template `%s %s` instead of the copy member: '
+                          'the source Any is treated as a payload value (an Any nested in an Any, or unbounded recursion while the holder '
+                          'parameter is itself constructed from an Any)' % (cat, callee['q'].replace('rkcommon::utility::', ''), callee['fty']),
+                          tu.loc(x), key='%s|rkcommon/utility/Any.h|Any|value-template-selected-for-any' % R)
+        else:
+            ctx.undecided(R, what, 'callee not resolved', tu.loc(x))
+    ctx.floor(R, n, 8, '4 constructions + 4 assignments in rkverif::any_value_categories')
+    for r in tu.records.values():
+        if r.get('tmpl') == ANY + '::handle' and r.get('targs') and r['targs'][0].get('t', '').replace('const ', '').strip() == ANY:
+            ctx.violation(R, 'Any::handle<%s>' % r['targs'][0].get('t'), 'a holder for the payload type Any is instantiated: some construction or '
+                          'assignment treats an Any as a value to be stored', 'rkcommon/utility/Any.h',
+                          key='%s|rkcommon/utility/Any.h|Any::handle|holder-of-any' % R)
+
+
 def run(ctx):
     ctx.assume('*this and the argument of an Optional assignment are distinct objects (self-assignment not modelled)')
     ctx.assume('payload types behave as values; their own constructors/destructors are not analysed')
@@ -1421,6 +1544,8 @@ def run(ctx):
     check_layout(ctx, tu)
     check_storage_bytes(ctx, tu)
     check_any(ctx, tu)
+    check_any_categories(ctx, tu)
+    check_demangle(ctx)
     if ctx.tier == 'thorough':
         tu2 = ctx.front.parse('drivers/wrappers.cpp', 'TBB', std='gnu++17')
         check_optional(ctx, tu2)
